@@ -235,6 +235,10 @@ type Finding struct {
 	Impl   []string `json:"impl"`
 	Model  []string `json:"model"`
 	Detail string   `json:"detail,omitempty"`
+	// FirstDiff: where the first run of the (unshrunk) script differed
+	FirstDiff string `json:"first_diff,omitempty"`
+	// Repro: how many of the two immediate re-runs of the unshrunk script failed the same way
+	Repro int `json:"repro"`
 }
 
 type StreamStat struct {
@@ -257,6 +261,9 @@ type Result struct {
 	Findings     []Finding    `json:"findings"`
 	WallS        float64      `json:"wall_s"`
 	HarnessError string       `json:"harness_error,omitempty"`
+	// Unstable: failing scripts that did not fail again in two immediate re-runs (timing)
+	Unstable        int      `json:"unstable"`
+	UnstableSamples []string `json:"unstable_samples,omitempty"`
 }
 
 func isViolationLine(s string) bool { return strings.HasPrefix(s, "FAIL") }
@@ -445,6 +452,26 @@ func runStreams(prop, tier string, seed int64, streams []Stream, budget int, cor
 			res.Samples = append(res.Samples, map[string]any{"stream": s.Stream, "class": s.Class, "lines": clip(s.Lines), "impl": clip(impl[i]), "model": clip(model[i])})
 		}
 		if kind := classify(impl[i], model[i]); kind != "" {
+			// scripts that drive real goroutines can depend on timing: a failure that does not
+			// show again in two immediate re-runs is recorded as "unstable" (reported in the
+			// evidence, not a verdict on the code)
+			fd := firstDiff(s.Lines, impl[i], model[i])
+			repro := 0
+			for k := 0; k < 2; k++ {
+				c := s
+				ri := runImpl(&c)
+				rm, err := runModel([]Script{c})
+				if err == nil && classify(ri, rm[0]) == kind {
+					repro++
+				}
+			}
+			if repro == 0 {
+				res.Unstable++
+				if len(res.UnstableSamples) < 5 {
+					res.UnstableSamples = append(res.UnstableSamples, s.Stream+"/"+s.Class+": "+fd)
+				}
+				continue
+			}
 			// per kind and verdict, so that thousands of disagreements (or many instances of
 			// one known finding) cannot crowd out a different oracle verdict
 			vk := kind + "|" + s.Stream + "|" + verdictKey(impl[i])
@@ -456,7 +483,7 @@ func runStreams(prop, tier string, seed int64, streams []Stream, budget int, cor
 				}
 				si := runImpl(&sh)
 				sm, _ := runModel([]Script{sh})
-				f := Finding{Kind: kind, Stream: s.Stream, Class: s.Class, Lines: sh.Lines, Impl: si}
+				f := Finding{Kind: kind, Stream: s.Stream, Class: s.Class, Lines: sh.Lines, Impl: si, FirstDiff: fd, Repro: repro}
 				if len(sm) == 1 {
 					f.Model = sm[0]
 				}
@@ -489,6 +516,29 @@ func verdictKey(impl []string) string {
 		}
 	}
 	return ""
+}
+
+func firstDiff(lines, impl, model []string) string {
+	for i := range impl {
+		if isViolationLine(impl[i]) {
+			return fmt.Sprintf("line %d %q: %s", i, clipS(lines[i]), clipS(impl[i]))
+		}
+		if i >= len(model) || impl[i] != model[i] {
+			m := "<none>"
+			if i < len(model) {
+				m = model[i]
+			}
+			return fmt.Sprintf("line %d %q: impl %q model %q", i, clipS(lines[i]), clipS(impl[i]), clipS(m))
+		}
+	}
+	return ""
+}
+
+func clipS(s string) string {
+	if len(s) > 240 {
+		return s[:240] + "…"
+	}
+	return s
 }
 
 func countKind(fs []Finding, k string) int {
